@@ -114,6 +114,11 @@ func (v *vmFacts) storedVMFields(fn *ssa.Function) (direct map[string]bool, elem
 		switch st := ins.(type) {
 		case *ssa.Store:
 			if fa, ok := v.isVMFieldAddr(st.Addr); ok {
+				// the initialisation of a VM this function has just allocated is not
+				// a write to the state of a VM that runs
+				if _, fresh := fa.X.(*ssa.Alloc); fresh {
+					return
+				}
 				direct[v.vmS.Field(fa.Field).Name()] = true
 				return
 			}
